@@ -1,2 +1,221 @@
-"""gym_model (library models)"""
+"""gymnasium model: the environment typestate contract of DESIGN 5 (C01/C11).
+
+ASSUMED contract of the Gymnasium API.  An environment is a heap object with
+ghost fields
+  $cur     last returned observation (sort Val)
+  $alive   an episode is running (reset done, no termination/truncation since)
+  $nsteps  number of step() calls so far;  $nresets number of reset() calls
+  $ndone   number of finished episodes (steps that returned terminated or truncated)
+  $before / $action   observation before / action passed to the most recent step
+and immutable "log space" ghost functions of the step index n of THIS
+environment: OBS(n), REW(n), TERM(n), TRUNC(n) and RESET(k) for the k-th reset.
+`step` when not $alive is what the property forbids: it is reported through
+the obligation hook `step.pre.alive` (C11) instead of being modelled.
+"""
+from __future__ import annotations
+
+from fractions import Fraction
+
+import z3
+
+from .. import core as C
+from .. import tensor as T
+from ..core import BOOL, INT, REAL, VAL, Anything, Builtin, Obj, Opaque, PyRaise, Sym, Unsupported
 from . import LIB
+
+ENV = "gymnasium.Env"
+DISCRETE = "gymnasium.spaces.Discrete"
+BOX = "gymnasium.spaces.Box"
+LIB.class_bases[DISCRETE] = ["gymnasium.spaces.Space"]
+LIB.class_bases[BOX] = ["gymnasium.spaces.Space"]
+LIB.class_bases["gymnasium.core.Env"] = [ENV]
+
+
+def env_funcs(name):
+    return dict(
+        OBS=C.uf(f"OBS_{name}", INT, VAL), REW=C.uf(f"REW_{name}", INT, REAL), TERM=C.uf(f"TERM_{name}", INT, BOOL),
+        TRUNC=C.uf(f"TRUNC_{name}", INT, BOOL), RESET=C.uf(f"RESET_{name}", INT, VAL))
+
+
+def mk_env(E, name="env", discrete=True, alive=False):
+    """environment in an arbitrary state: before the first reset ($alive False)
+    unless alive=True"""
+    if discrete:
+        n = E.int(f"{name}.n_actions", 2)
+        space = Obj(DISCRETE, {"n": n}, name=f"{name}.action_space")
+    else:
+        space = Obj(BOX_STUB, {"$dim": None}, name=f"{name}.action_space")
+    E.register(space)
+    obs_space = Obj("gymnasium.spaces.Space", {"dtype": Opaque("dtype", "float32"), "shape": (Opaque("obs-shape"),)}, name=f"{name}.observation_space")
+    E.register(obs_space)
+    n0 = E.int(f"{name}.steps_before", 0)
+    o = Obj(ENV, {
+        "action_space": space, "observation_space": obs_space,
+        "$name": name, "$cur": E.val(f"{name}.cur0"), "$alive": E.bool(f"{name}.alive0") if alive is None else alive,
+        "$nsteps": n0, "$nresets": E.int(f"{name}.resets_before", 0), "$ndone": E.int(f"{name}.done_before", 0),
+        "$before": E.val(f"{name}.before0"), "$action": E.val(f"{name}.action0"), "$n0": n0,
+    }, name=name)
+    E.register(o)
+    return o
+
+
+def hook(E, kind, **kw):
+    for h in E.shared.__dict__.get("env_hooks", []):
+        h(E, kind, **kw)
+
+
+@LIB.cls(ENV)
+def _env(E, obj, name):
+    f = obj.fields
+    fn = env_funcs(f["$name"])
+    if name == "reset":
+        def reset(E, seed=None, options=None, **kw):
+            k = f["$nresets"]
+            o = Sym(fn["RESET"](C.to_z3(k)))
+            E.log_write(obj.name, "$cur")
+            E.log_write(obj.name, "$alive")
+            E.log_write(obj.name, "$nresets")
+            f["$cur"] = o
+            f["$alive"] = True
+            f["$nresets"] = C.binop("+", k, 1)
+            hook(E, "reset", env=obj, obs=o)
+            return (o, {})
+        return Builtin("Env.reset", reset)
+    if name == "step":
+        def step(E, action):
+            hook(E, "step.pre", env=obj, action=action)
+            n = f["$nsteps"]
+            nz = C.to_z3(n)
+            o2, r = Sym(fn["OBS"](nz)), Sym(fn["REW"](nz))
+            term, trunc = Sym(fn["TERM"](nz)), Sym(fn["TRUNC"](nz))
+            for fld in ("$cur", "$alive", "$nsteps", "$before", "$action", "$ndone"):
+                E.log_write(obj.name, fld)
+            f["$before"] = f["$cur"]
+            f["$action"] = action
+            f["$cur"] = o2
+            done = C.mk(z3.Or(term.z, trunc.z))
+            f["$alive"] = C.unop("not", done)
+            f["$nsteps"] = C.binop("+", n, 1)
+            f["$ndone"] = C.binop("+", f["$ndone"], C.ite(done, 1, 0))
+            hook(E, "step.post", env=obj)
+            info = InfoDict(obj)
+            return (o2, r, term, trunc, info)
+        return Builtin("Env.step", step)
+    if name == "close":
+        return Builtin("Env.close", lambda E: None)
+    if name == "unwrapped":
+        return obj
+    if name == "spec":
+        return Anything("env.spec")
+    return NotImplemented
+
+
+class InfoDict(dict):
+    """info returned by step: contents unconstrained; 'episode' in info is unknown"""
+
+    def __init__(self, env):
+        super().__init__()
+        self.env = env
+
+
+@LIB.cls(DISCRETE)
+def _discrete(E, obj, name):
+    if name == "sample":
+        def sample(E, *a, **k):
+            s = E.st.fresh_sym("space_sample", INT)
+            E.assume(C.band(s >= 0, C.compare("<", s, obj.fields["n"])))
+            hook(E, "space.sample", space=obj, action=s)
+            return s
+        return Builtin("Discrete.sample", sample)
+    if name == "seed":
+        return Builtin("Space.seed", lambda E, *a, **k: None)
+    if name == "shape":
+        return ()
+    return NotImplemented
+
+
+BOX_STUB = "stub.Box"  # loop-level Box: actions are opaque payloads known to lie inside the box
+
+
+@LIB.cls(BOX_STUB, bases=(BOX,))
+def _box(E, obj, name):
+    if name == "sample":
+        def sample(E, *a, **k):
+            s = E.st.fresh_sym("space_sample", VAL)
+            E.st.ghost.setdefault("in_bounds_actions", []).append(s)
+            hook(E, "space.sample", space=obj, action=s)
+            return s
+        return Builtin("Box.sample", sample)
+    if name == "seed":
+        return Builtin("Space.seed", lambda E, *a, **k: None)
+    if name in ("low", "high"):
+        return obj.fields.get(name, Anything(f"box.{name}"))
+    if name == "shape":
+        return obj.fields.get("shape", (Opaque("act-dim"),))
+    return NotImplemented
+
+
+@LIB.cls("gymnasium.spaces.Space")
+def _space(E, obj, name):
+    return NotImplemented
+
+
+def _space_setattr(E, tag, obj, name, value):
+    return NotImplemented
+
+
+@LIB.fn("tqdm.trange", doc="trange(a,b) iterates like range(a,b)")
+def tqdm_trange(E, *a, **kw):
+    r = LIB.builtins["range"].fn(E, *a)
+    return Progress(r)
+
+
+class Progress:
+    def __init__(self, rng):
+        self.rng = rng
+
+
+@LIB.fn("tqdm.tqdm")
+def tqdm_tqdm(E, it=None, **kw):
+    return Progress(it)
+
+
+def _progress_attr(E, v, name):
+    if isinstance(v, Progress):
+        if name in ("update", "close", "set_description", "set_postfix", "refresh", "write"):
+            return Builtin(f"tqdm.{name}", lambda E, *a, **k: None)
+        if name == "n":
+            return Anything("tqdm.n")
+    return NotImplemented
+
+
+LIB.value_attr_handlers.insert(0, _progress_attr)
+
+_orig_as_range = LIB.as_symbolic_range
+
+
+def _as_range(E, it):
+    if isinstance(it, Progress):
+        it = it.rng
+    return _orig_as_range(E, it)
+
+
+LIB.as_symbolic_range = _as_range
+
+
+def _iterate_progress(E, v):
+    if isinstance(v, Progress):
+        return E.iterate(v.rng)
+    return NotImplemented
+
+
+LIB.iterate_handlers.insert(0, _iterate_progress)
+
+
+def _info_contains(E, container, item):
+    if isinstance(container, InfoDict):
+        return E.st.fresh_sym("info_has", BOOL)
+    return NotImplemented
+
+
+LIB.contains_hook = _info_contains
